@@ -201,10 +201,15 @@ def export_cases(ctx, text, path, stats):
             for k, needle in GUARDS.items():
                 if needle in s:
                     stats[k] = stats.get(k, 0) + 1
+            if '"resets":true' in s and RESET_THEN_CALL.search(s):
+                stats["read_reset_call_reinspect"] = stats.get("read_reset_call_reinspect", 0) + 1
             if n % 997 == 1 and len(stats["sample"]) < 3:
                 stats["sample"].append(json.loads(s))
     return n
 
+
+# read -> reset -> call with another tag -> the retained pre-reset result is re-inspected (snaps non-empty)
+RESET_THEN_CALL = re.compile(r'"op":"reset(?:m|all)".*?"op":"call"[^}]*?"args":\[\[2\d\d.*?"snaps":\[\{')
 
 GUARDS = {  # situations the exported histories must contain (vacuity)
     "nil_panic": '"names":true',
@@ -425,6 +430,8 @@ def run(ctx):
     for k in GUARDS:
         if not stats.get(k) and not only:
             raise MachineryError("vacuous: no exported history contains %s" % k)
+    if not stats.get("read_reset_call_reinspect") and not only:
+        raise MachineryError("vacuous: no exported history of the shape read -> reset -> call (other arguments) -> re-inspect")
     maxlen = max(stats["len"])
     if maxlen < (6 if thorough else 5):
         raise MachineryError("vacuous: longest exported history has %d ops" % maxlen)
@@ -468,7 +475,7 @@ def run(ctx):
                     "classes_skipped_not_compiling": len(skipped), "mocks_generated": len(live) * 8,
                     "generate_and_build_s": round(t_gen, 1),
                     "deep_shapes": [shape_key(s) for s in deep] if not thorough else "all",
-                    "situations_in_exported_histories": {k: stats.get(k, 0) for k in GUARDS}})
+                    "situations_in_exported_histories": {k: stats.get(k, 0) for k in list(GUARDS) + ["read_reset_call_reinspect"]}})
     rich = [t for t in matching if live[t["key"].split("/")[1]]["shape"]["ar"] >= 2 and len(t["events"]) >= 4
             and any(e["op"] == "call" and e["fwd"] for e in t["events"])]
     for t in (rich or matching)[:2]:
